@@ -552,6 +552,14 @@ func genPolygon(t *rapid.T) polyCase {
 			// a shell of 4..8 long edges and a triangular hole with one edge lying
 			// along (strictly inside, within rounding of) a shell edge: the two
 			// loops' bounding rectangles then differ by rounding only on that side
+			if rapid.Bool().Draw(t, l+".touch") {
+				// ... or a hole sharing exactly one vertex with a shell of 5..16 vertices
+				if tr, ok := gen.TouchRings(t, l, c, math.Max(rout, 1e-4)); ok {
+					pc.Sys = append(pc.Sys, ringSystem{Center: tr.Center, Rings: tr.Rings})
+					total += 2
+					continue
+				}
+			}
 			if hs, ok := hugSystem(t, l, c, x, y, math.Max(rout, 0.05)); ok {
 				pc.Sys = append(pc.Sys, hs)
 				total += 2
